@@ -217,7 +217,8 @@ func c16r3(r *R) {
 // globalRegexp returns the pattern a package-level regexp variable is compiled from.
 func globalRegexp(r *R, pkgRel, name string) (string, ssa.Instruction) {
 	p := r.pkg(pkgRel)
-	g, ok := p.Members[name].(*ssa.Global)
+	g := refGlobal(p, name)
+	ok := g != nil
 	if !ok {
 		r.missing("global %s.%s", pkgRel, name)
 	}
